@@ -742,7 +742,9 @@ func c03Shape(c *Ctx, r *RuleResult, san *ssa.Function, p *Program) {
 			nul := env.Bool("strings.Contains(name,\"\\x00\")")
 			sep := false
 			if windowsLike {
-				sep = env.Bool("strings.IndexRune(name,92)>=0")
+				// one atom for every spelling of "name contains a backslash"
+				// (IndexRune, IndexByte, ContainsRune, Contains)
+				sep = env.Bool("strings.Contains(name,\"\\\\\")")
 			}
 			abs := env.Bool("path.IsAbs(path.Clean(name))")
 			want := !nul && !sep && abs
